@@ -655,9 +655,9 @@ class Parser:
                     elif expr in os.environ:
                         return self.create_envvar(expr)
                     elif quoted:
-                        return self.kconfigize_expr(
-                            ""
-                        )  # macros failed to expand even as environment variable are substituted with empty string
+                        # macros failed to expand even as environment variable are substituted with empty string
+                        # (the constant symbol "", not a config symbol without a name)
+                        return self.kconfig._lookup_const_sym("")
                     else:
                         raise KconfigError(f"{expr}: macro expanded to blank string")
                 elif expr.startswith("{") and expr.endswith("}"):
